@@ -424,3 +424,77 @@ def k6(cx):
                     cx.check(not bad, None, construct=label + f": global size = n for n in {list(NS)}", detail="one work item per index (no guard needed)",
                              bad_detail="OpenCL work items do not match indices 0..n-1: " + "; ".join(bad[:3]), anchor=spec + ".__call__", sub="launch")
     cx.need(ncase >= 100, f"only {ncase} launch cases evaluated")
+
+
+@rule("K7", ["C07", "C02", "C17"], "add_kernels over sequences of calls: every call builds exactly the kernels it is given, and the context then holds, under each name, what the LATEST build returned for it")
+def k7(cx):
+    """A context is used for many classes over its life; class names (and therefore accessor names) are not unique --
+    array classes are named after shape and item type only, a struct can be defined again under its name.  The compiled
+    accessor the context holds under a name must therefore always be the one built from the description given LAST.
+    `add_kernels` of ContextCpu and of the base class (used by the CUDA / OpenCL contexts) is evaluated with a recording
+    `build_kernels` on the sequences  [add {k1: D1, k2: D2}] ; [add {k1: D1'}]  (same name, another description) with and
+    without user sources."""
+    from ..peval import Interp, Obj as _Obj, Opaque as _Op, Builtin as _B
+
+    m = cx.m
+    n = 0
+    for spec, clsname in (("context_cpu::ContextCpu.add_kernels", ("context_cpu", "ContextCpu")), ("context::XContext.add_kernels", ("context", "XContext"))):
+        fnode = m.func(spec)
+        for with_sources in (False, True):
+            I = Interp(m)
+            C = I.global_lookup(*clsname)
+            builds = []
+
+            def build(*a, **k):
+                cx.need(not a, "K7: build_kernels is called with positional arguments (not modelled)")
+                desc = k.get("kernel_descriptions")
+                names = list(I.iterate(desc)) if desc is not None else []
+                builds.append({"names": names, "descs": {nm: desc[nm] for nm in names}, "sources": k.get("sources")})
+                return {nm: ("built", len(builds), desc[nm]) for nm in names}
+
+            KD = I.global_lookup("context", "KernelDict")
+            me = _Obj("instance", {"_kernels": {}, "build_kernels": _B("build_kernels", build)}, cls=C)
+            D1, D2, D1b = _Op("description-1"), _Op("description-2"), _Op("description-1-of-another-layout")
+            src = ["/*gpufun*/ void f(){}"] if with_sources else None
+
+            def thunk():
+                kw = {"kernels": {"k1": D1, "k2": D2}}
+                if src:
+                    kw["sources"] = list(src)
+                I.call(I.getattr(me, "add_kernels"), [], kw)
+                kw = {"kernels": {"k1": D1b}}
+                if src:
+                    kw["sources"] = list(src)
+                I.call(I.getattr(me, "add_kernels"), [], kw)
+                return I.getattr(me, "kernels")
+
+            try:
+                res = I.explore(thunk, max_paths=8)
+            except AnalysisError as e:
+                cx.recog(False, fnode, f"add_kernels cannot be evaluated: {e}")
+            cx.recog(len(res) == 1, fnode, f"{len(res)} evaluation paths in add_kernels")
+            r = res[0]
+            if r["exc"] is not None:
+                cx.recog(r["exc"].etype not in ("AttributeError", "NameError", "TypeError", "KeyError"), fnode, f"add_kernels raises {r['exc'].etype}: {r['exc'].msg} (model gap)")
+                cx.bad(fnode, construct=f"{clsname[1]}.add_kernels twice" + (" with sources" if with_sources else ""), detail=f"raises {r['exc'].etype}: {r['exc'].msg}", sub="sequence")
+                continue
+            held = r["result"]
+            n += 1
+            probs = []
+            if len(builds) != 2:
+                probs.append(f"{len(builds)} builds for two add_kernels calls")
+            else:
+                if sorted(builds[0]["names"]) != ["k1", "k2"]:
+                    probs.append(f"the first call builds {builds[0]['names']}, it was given k1, k2")
+                if builds[1]["names"] != ["k1"] or builds[1]["descs"].get("k1") is not D1b:
+                    probs.append(f"the second call builds {builds[1]['names']}, it was given k1 with a new description")
+            k1 = held.get("k1") if isinstance(held, dict) else None
+            if not probs and not (isinstance(k1, tuple) and k1[1] == 2 and k1[2] is D1b):
+                probs.append(f"after the second call the context holds {k1!r} under `k1`, not what was built from the description given last")
+            k2 = held.get("k2") if isinstance(held, dict) else None
+            if not probs and not (isinstance(k2, tuple) and k2[1] == 1 and k2[2] is D2):
+                probs.append(f"`k2` is {k2!r} after the second call")
+            cx.check(not probs, fnode, construct=f"{clsname[1]}.add_kernels({{k1, k2}}) ; add_kernels({{k1: another description}})" + (" with user sources" if with_sources else ""),
+                     detail="each call builds what it is given; the context holds the latest build under each name",
+                     bad_detail="; ".join(probs) + ": a kernel name does not identify a layout (same-named array classes of another axis order, a struct defined again): the accessor kept from the earlier build addresses other bytes", sub="sequence")
+    cx.need(n == 4, f"only {n} of 4 add_kernels sequences evaluated")
